@@ -289,7 +289,8 @@ func overrideEntry(node *CandidateNode, key *CandidateNode, value *CandidateNode
 		keyNode := node.Content[index]
 
 		// only a key of the map can override: for a merge list startIndex is the index inside the list, and an odd one lands on value nodes
-		if keyNode.IsMapKey && keyNode.Value == key.Value && keyNode.Alias == nil {
+		// (a later merge key does not override anything by its name: an ordinary key spelled "<<" before it must stay)
+		if keyNode.IsMapKey && keyNode.Tag != "!!merge" && keyNode.Value == key.Value && keyNode.Alias == nil {
 			log.Debugf("content will be overridden at index %v", index)
 			return nil
 		}
